@@ -824,3 +824,69 @@ def run_pricedim(prog, E=None, prefix="mpq_", rule="R-PRICEDIM"):
     res.counts["dimension_changing_public_functions"] = n
     res.floor("public functions that may change the row / column count", n, 8)
     return res
+
+
+class MustFollowFail(MustFollow):
+    """as MustFollow, and: after a mutation event of `partial` (a callee that may have written LP data before it rejects its arguments)
+    a failing return with the cache still in place is bad as well"""
+
+    def __init__(self, prog, f, mut, inv, partial):
+        MustFollow.__init__(self, prog, f, mut, inv)
+        self.partial = partial
+
+    def xfer(self, b, i, e, st):
+        out = MustFollow.xfer(self, b, i, e, st)
+        key = (b["id"], i)
+        if key in self.partial:
+            out = [(s[0], s[1], 2, s[3]) for s in out]          # 2: dirty on success and on failure
+        if e[0] == "R" and st[2] == 2 and not st[3]:
+            self.bad.setdefault(e[2], (b["id"], st))
+        return out
+
+
+def run_failpath(prog, E=None, prefix="mpq_", rule="R-INVALPART"):
+    """callees that apply a batch element by element can fail after having changed the problem (the known findings of R-ATOMIC name them:
+    ILLlib_addrows, ILLlib_addcols).  A public function that calls one of them must drop the cached solution on the failure path as well:
+    the problem is no longer the one the cache belongs to."""
+    import json, os
+    E = E or Effects(prog)
+    res = RuleResult(rule, "a public function that calls a batch routine which can fail half-way drops the cached solution on every path behind the call, "
+                           "failing ones included")
+    kf = os.path.join(os.path.dirname(os.path.dirname(os.path.dirname(os.path.abspath(__file__)))), "known_findings.json")
+    partial_names = set()
+    try:
+        for fd in json.load(open(kf)).get("findings", []):
+            if fd.get("rule") == "R-ATOMIC" and "|ILLlib_" in fd.get("key", "") and fd["key"].split("|")[0] in ("ILLlib_addrows", "ILLlib_addcols"):
+                partial_names.add(fd["key"].split("|")[0])
+    except Exception:
+        pass
+    partial_names |= {"ILLlib_addrows", "ILLlib_addcols"}
+    res.counts["batch_routines_that_can_fail_half_way"] = sorted(partial_names)
+    n = 0
+    for f, pidx in api_functions(prog, prefix):
+        m = events(prog, E, f, pidx, D_SOL, prefix)
+        part = set()
+        for ci in E.callinfo[f.key]:
+            (g, name, loc, args, bid, idx, c) = ci
+            if g is not None and base(g.name) in partial_names and (bid, idx) in m:
+                part.add((bid, idx))
+        if not part:
+            continue
+        inv = set()
+        for b, i, c in f.calls():
+            if (callee(c) or "") in INVALIDATORS or base(callee(c) or "") in INVALIDATORS:
+                inv.add((b["id"], i))
+        n += 1
+        res.obligations += len(part)
+        res.nontrivial += len(part)
+        an = MustFollowFail(prog, f, m, inv, part).run()
+        if an.bad:
+            loc, (bid, st) = sorted(an.bad.items())[0]
+            res.violations.append(Violation(rule, "%s|return behind a half-applied batch with the cache in place" % base(f.name), f.name, short_loc(loc),
+                                            "%s can return (with an error code) after its batch routine has already applied part of the batch, without free_cache(p): the "
+                                            "cached solution and status of the old problem keep being served" % f.name, path=an.flow.witness(bid, st)))
+        else:
+            res.sample({"function": f.name, "verdict": "cache dropped on every path behind the batch call"}, limit=8)
+    res.counts["public_callers_of_batch_routines"] = n
+    res.floor("public callers of batch routines", n, 3)
+    return res
